@@ -83,10 +83,10 @@ vars == <<st, t1, t1cnt, itsn, answered, next, rx, sentQ, outQ, sub, ssnOut, del
 
 Ordered == [c \in ChanIds |-> Chans[c].ord]
 
-Kinds == {"INIT", "IACK", "CECHO", "CACK", "DATA", "SACK", "FWD", "GSACK"}
+Kinds == {"INIT", "IACK", "CECHO", "CACK", "DATA", "SACK", "FWD", "GSACK", "ZSACK"}
 \* o: ordinal among the packets of this kind and direction; g: for a SACK that carries gap blocks, its
 \* ordinal among such SACKs (0 otherwise) - a second content address for the same packet
-Pkt(k, src, tsn, fr, gaps) == [k |-> k, src |-> src, tsn |-> tsn, fr |-> fr, gaps |-> gaps, o |-> 0, g |-> 0, w |-> 0]
+Pkt(k, src, tsn, fr, gaps) == [k |-> k, src |-> src, tsn |-> tsn, fr |-> fr, gaps |-> gaps, o |-> 0, g |-> 0, z |-> 0, w |-> 0]
 \* advertised receive window (INIT, INIT-ACK, SACK)
 WithW(p, w) == [p EXCEPT !.w = w]
 \* a DATA packet is addressed by its TSN relative to the sender's initial TSN and its transmission number
@@ -99,12 +99,15 @@ RelTsn(p) == IF p.k = "DATA" THEN (p.tsn + M - itsn[p.src]) % M
 ---------------------------------------------------------------------------
 (* Network                                                                 *)
 IsGapSack(p) == p.k = "SACK" /\ p.gaps # {}
+IsZeroSack(p) == p.k = "SACK" /\ p.w = 0      \* third content address: ordinal among SACKs advertising a closed window
 Stamp(p) == IF NetMode = "fifo" /\ p.k # "DATA"
             THEN [p EXCEPT !.o = cnt[p.src][p.k] + 1,
-                           !.g = IF IsGapSack(p) THEN cnt[p.src]["GSACK"] + 1 ELSE 0]
+                           !.g = IF IsGapSack(p) THEN cnt[p.src]["GSACK"] + 1 ELSE 0,
+                           !.z = IF IsZeroSack(p) THEN cnt[p.src]["ZSACK"] + 1 ELSE 0]
             ELSE IF NetMode = "set" THEN [p EXCEPT !.o = 0] ELSE p
-Count(c, p) == IF IsGapSack(p) THEN [c EXCEPT ![p.src][p.k] = @ + 1, ![p.src]["GSACK"] = @ + 1]
-               ELSE [c EXCEPT ![p.src][p.k] = @ + 1]
+Count(c, p) == [c EXCEPT ![p.src][p.k] = @ + 1,
+                         ![p.src]["GSACK"] = IF IsGapSack(p) THEN @ + 1 ELSE @,
+                         ![p.src]["ZSACK"] = IF IsZeroSack(p) THEN @ + 1 ELSE @]
 Holed(p) == p.k = "DATA" /\ RelTsn(p) \in hole[p.src]
 \* packets that may be handed to side `to` now
 Avail(to) ==
@@ -271,7 +274,9 @@ TransmitNew(s) ==
   /\ st[s] = "Connected"
   /\ outQ[s] # <<>>
   /\ Cardinality(Outstanding(sentQ[s])) < Win
-  /\ peerW[s] > Cardinality(Outstanding(sentQ[s]))      \* transmit(): available = rwnd - flight > 0
+  \* transmit(): new data while rwnd - flight > 0; the last chunk may exceed what is left (one packet
+  \* beyond the window), but nothing goes out against an advertised window of zero
+  /\ peerW[s] > 0 /\ peerW[s] + 1 > Cardinality(Outstanding(sentQ[s]))
   /\ since' = [since EXCEPT ![s] = @ + 1]
   /\ LET f == Head(outQ[s])
          t == next[s]
@@ -412,7 +417,7 @@ RecvSack(s, p) ==
 (* of that kind in that direction, fault kind, and for delayed copies the  *)
 (* packet after which the copy is released.                                *)
 FaultRec(d, p, kind, after) ==
-  [dir |-> d, k |-> p.k, o |-> p.o, t |-> RelTsn(p), g |-> p.g, kind |-> kind,
+  [dir |-> d, k |-> p.k, o |-> p.o, t |-> RelTsn(p), g |-> p.g, z |-> p.z, kind |-> kind,
    ak |-> after.k, ao |-> after.o, at |-> after.t, ag |-> after.g]
 NoAfter == [k |-> "NONE", o |-> 0, t |-> 0, g |-> 0]
 ProtoSame == UNCHANGED <<st, t1, t1cnt, itsn, answered, next, rx, sentQ, outQ, sub, ssnOut, deliv, opens, ackPt, advPt, fwd,
